@@ -6,6 +6,7 @@ import KtVerif.DriverSched
 import KtVerif.Model.MinOut
 import KtVerif.Spec.Cli
 import KtVerif.Model.Py
+import KtVerif.Spec.EndToEnd
 /-!
 # Driver glue (trusted, thin): parsing of request lines, printing of answers.
 
@@ -270,6 +271,19 @@ def answerWords (c : Cache) : List String → Cache × String
     | none => (c, "err")
     | some row =>
       (c, joinWith "|" ["ok", joinWith "," (row.map fun t => s!"{f64Bits t.1}:{f64Bits t.2.1}:{f64Bits t.2.2}")])
+  | ["oligofile", k, norm, header, dl, recs] =>
+    -- the whole expected vectors file: the specification (`oligoFileSpecG`, right-hand side of the end-to-end
+    -- theorems) and the code-shaped model (header of the model ++ model rows)
+    let k := k.toNat!; let norm := norm == "1"; let header := header == "1"; let delim := unhex dl
+    let rs := recsOf recs
+    let (c, pm) := c.get k
+    let (c, cl) := c.canon k
+    let hdrSpec := if header then joinBytes delim (cl.map (decodeSpec k)) ++ [10] else []
+    let specFile := hdrSpec ++ (rs.map fun s => rowText norm delim (oligoRowSpecWith cl k s) (windowCount k s)).flatten
+    let hdrModel := if header then joinBytes delim (pm.posKmer.map (numericToKmer k)) ++ [10] else []
+    let modelFile := hdrModel ++ (rs.map fun s => oligoRowText pm k norm delim s).flatten
+    let rowLen := match rs with | [] => 0 | s :: _ => (oligoRowText pm k norm delim s).length
+    (c, joinWith "|" ["ok", hex modelFile, hex specFile, toString hdrModel.length, toString rowLen])
   | ["pyoligo", k, norm, hx] =>
     let k := k.toNat!; let norm := norm == "1"
     let (c, pm) := c.get k
